@@ -337,7 +337,12 @@ structure Frame where
   depth : Nat       -- `rs.depth`
   hosts : Bool      -- `checkHosts` not yet spent for the current server set
   level : Nat       -- `rs.level`
+  work : Bool := true   -- `rs.work != nil`: the frame carries the request tree's ledger
 deriving Repr, DecidableEq
+
+/-- `Resolver.exchange`: the outbound debit happens exactly when the frame carries the ledger
+(`if rs.work != nil { … Debit(RecursionWorkOutboundQuery) … }`). -/
+def Frame.exchangeDebits (f : Frame) : Bool := f.work
 
 /-- every way `resolve` re-enters itself.  The environment (the upstream
 servers, the delegation cache) chooses which one and with which data. -/
@@ -519,5 +524,14 @@ def servfailReply (p : Policy) (sh : Shared) (reqHasOpt : Bool) (downstreamEde :
   match enforcementError p sh with
   | .limit k _ => { rcode := 2, ede := if reqHasOpt then some (edeCode k) else none }
   | .ok => { rcode := 2, ede := if reqHasOpt then downstreamEde else none }
+
+/-- `cache.ResponseWriter.WriteMsg` on a response whose alias the cache chases itself: the chase
+(`additionalAnswer` → internal sub-queries) spends `chase` against the tree's ledger first; whether the
+resulting failure may enter the shared failure cache is decided on the ledger state AFTER the chase
+(`cacheableResolutionFailure` reads `RecursionWorkEnforcementError(ctx)` when it is called). -/
+def chasedFailureCacheable (p : Policy) (sh : Shared) (chase : List ApiOp) (ctxErr bestEffort localMark : Bool) : Bool :=
+  let sh' := chase.foldl (fun s op => (apiStep p s op).1) sh
+  cacheableFailure { ctxErr := ctxErr, bestEffort := bestEffort,
+                     enforced := enforcementError p sh' != .ok, localMark := localMark }
 
 end SdnsVerif.Model.Work
